@@ -641,8 +641,9 @@ func (t *Tree) Compile(file string, args []string, out io.Writer) (err error) {
 			}
 		}
 	}
-	/* sort imports to satisfy gofmt */
+	/* sort imports to satisfy gofmt, and drop the ones the grammar repeats */
 	slices.Sort(t.Imports)
+	t.Imports = slices.Compact(t.Imports)
 
 	/* second pass */
 	for _, n := range slices.Collect(t.Iterator()) {
